@@ -1,0 +1,72 @@
+//go:build verif
+
+package document
+
+import (
+	"math"
+
+	pr "github.com/benoitkugler/webrender/css/properties"
+	mt "github.com/benoitkugler/webrender/matrix"
+)
+
+// Contracts for the deductive verifier in /verif (build tag verif: not compiled
+// into normal builds). Oracle: CSS Transforms 1 §12 (2D transform functions), §8
+// (transform-origin), properties C17, C14, C16.
+
+// vSpecMat is the matrix CSS Transforms assigns to one (normalised) transform function:
+// scale(sx, sy), rotate(a), translate(tx, ty) with percentages against the border box,
+// skew(ax, ay), matrix(a..f).
+func vSpecMat(name string, args pr.Dimensions, bw, bh pr.Float) mt.Transform {
+	switch name {
+	case "scale":
+		return mt.Transform{A: fl(args[0].Value), D: fl(args[1].Value)}
+	case "rotate":
+		a := float64(fl(args[0].Value))
+		return mt.Transform{A: fl(math.Cos(a)), B: fl(math.Sin(a)), C: -fl(math.Sin(a)), D: fl(math.Cos(a))}
+	case "translate":
+		return mt.Transform{A: 1, D: 1, E: fl(pr.VV(pr.ResolvePercentage(args[0].ToValue(), bw))), F: fl(pr.VV(pr.ResolvePercentage(args[1].ToValue(), bh)))}
+	case "skew":
+		return mt.Transform{A: 1, B: fl(math.Tan(float64(fl(args[1].Value)))), C: fl(math.Tan(float64(fl(args[0].Value)))), D: 1}
+	default: // matrix
+		return mt.Transform{A: fl(args[0].Value), B: fl(args[1].Value), C: fl(args[2].Value), D: fl(args[3].Value), E: fl(args[4].Value), F: fl(args[5].Value)}
+	}
+}
+
+// what the validator emits: one of the five normalised names with its argument count,
+// translate arguments being lengths in px or percentages
+func vTransOK(t pr.SDimensions) bool {
+	switch t.String {
+	case "scale", "skew":
+		return len(t.Dimensions) == 2
+	case "rotate":
+		return len(t.Dimensions) == 1
+	case "translate":
+		return len(t.Dimensions) == 2 && (t.Dimensions[0].Unit == pr.Px || t.Dimensions[0].Unit == pr.Perc) && (t.Dimensions[1].Unit == pr.Px || t.Dimensions[1].Unit == pr.Perc)
+	case "matrix":
+		return len(t.Dimensions) == 6
+	}
+	return false
+}
+
+//@ func toF
+//@   props C17
+//@   inline
+
+// The CSS transform list composes left to right, conjugated by transform-origin:
+// result == T(origin) · M1 · … · Mn · T(-origin), each Mi being the specified matrix.
+//@ func getMatrix
+//@   props C17
+//@   modifies nothing
+//@   nopanic
+//@   let box = box_.Box()
+//@   let trans = box.Style.GetTransform()
+//@   requires box_ != nil && box.Style != nil
+//@   requires box.Width != nil && box.PaddingLeft != nil && box.PaddingRight != nil && box.BorderLeftWidth != nil && box.BorderRightWidth != nil && box.MarginLeft != nil
+//@   requires box.Height != nil && box.PaddingTop != nil && box.PaddingBottom != nil && box.BorderTopWidth != nil && box.BorderBottomWidth != nil && box.MarginTop != nil
+//@   requires forall(i, 0, len(trans), vTransOK(trans[i]))
+//@   requires (box.Style.GetTransformOrigin()[0].Unit == pr.Px || box.Style.GetTransformOrigin()[0].Unit == pr.Perc) && (box.Style.GetTransformOrigin()[1].Unit == pr.Px || box.Style.GetTransformOrigin()[1].Unit == pr.Perc)
+//@   call RightMultBy#1 assert arg1 == vSpecMat(name, args, borderWidth, borderHeight)
+//@   call Translate#2 assert arg1 == -originX && arg2 == -originY
+//@   call New#1 assert arg0 == 1 && arg1 == 0 && arg2 == 0 && arg3 == 1 && arg4 == originX && arg5 == originY
+//@   loop 1 invariant rangeindex < len(trans) && matrix != nil
+//@   loop 1 decreases len(trans) - rangeindex
